@@ -237,5 +237,9 @@ def run(ctx):
     from .evalhelpers import cached_witness, report_witness, find_workflow_witness
     report_witness(r2, "src/gwf/utils.py::find_workflow::project", "src/gwf/utils.py:1", cached_witness(ctx, "find-workflow", find_workflow_witness),
                    "the project whose jobs are cancelled is found from the directory the process runs in (getcwd) or the -f path, whatever $PWD says")
+    # "already finished ... is reported and does not prevent the remaining ones from being cancelled": the pool still knows a finished task's id when `gwf cancel` names it
+    from .localpool import rule_tasks_never_forgotten
+    rule_tasks_never_forgotten(ctx, r2, "a cancel request for a finished target whose entry was dropped raises in the pool's connection handler; the connection dies and every cancel "
+                               "request queued behind it in the same `gwf cancel` is lost")
     r3 = ctx.rule("R3", "after cancellation the next run is free to resubmit (CANCELLED/FAILED rows of the decision table)")
     rule_decision_table(ctx, r3)
